@@ -429,6 +429,104 @@ def rule_eq(ctx):
     ctx.exhaustive_domains.append("every concrete message class x every single-point perturbation of the property's quantifier")
 
 
+def _valid_constant(ci, field, is_part):
+    """A constant every validator of the field accepts (vocabulary member / number text), else a plain distinct string."""
+    from .. import protocol_tables as T
+    tag = ci.name[0].lower() + ci.name[1:]
+    for (spec, f), vocab in T.FIELD_VOCAB.items():
+        if f != field:
+            continue
+        spec_is_part = not spec.endswith("Vector") and spec != "enableBLOB"
+        if spec_is_part != is_part:
+            continue
+        if ("*" in spec and tag.startswith(spec.split("*")[0]) and tag.endswith(spec.split("*")[1])) or spec == tag:
+            return sorted(T.VOCAB_MEMBERS[vocab])[0]
+    if is_part and (tag, field) in T.NUMBER_FIELDS:
+        return "1.5"
+    return f"v-{field}"
+
+
+def rule_stable(ctx):
+    """Equality is a function of what a message was built from, not of what has been done with it: two copies built by the
+    real constructor from the same (valid, constant) arguments stay equal - both ways round - after one of them has been
+    serialised, rendered or compared: whatever those operations memoise on the object must not enter the comparison."""
+    from ..absint import Cls, Frame
+    p = ctx.p
+    classes = concrete_message_classes(p)
+    pol = lambda fi, node: fi.module.name.startswith("indi.message")
+    n = 0
+    bad = False
+    for ci in classes:
+        kw_names = [k for k in full_kwargs(p, ci)]
+        eqf = ci.find_method("__eq__")
+        if eqf is None:
+            continue
+        ccls = None
+        for cand in ("children_class", "child_class"):
+            v = p.class_constant(ci, cand)
+            if v is not None and hasattr(v, "mro"):
+                ccls = v
+
+        def build(it):
+            kw = {}
+            for k in kw_names:
+                if k == "children":
+                    if ccls is None:
+                        continue
+                    kids = []
+                    for j in range(2):
+                        ck = {n_: Const(_valid_constant(ccls, n_, True) + (str(j) if n_ == "name" else "")) for n_ in full_kwargs(p, ccls)}
+                        kids.append(it.apply(Cls(ccls), [], ck, [], None, Frame(None, ccls.module, {}), False))
+                        if isinstance(kids[-1], Obj):
+                            kids[-1].attrs["__closed__"] = Const(True)  # a constructed object has the attributes its constructor set
+                    kw[k] = Tup(kids)
+                else:
+                    kw[k] = Const(_valid_constant(ci, k, part_base(p) in ci.mro))
+            o = it.apply(Cls(ci), [], kw, [], None, Frame(None, ci.module, {}), False)
+            if isinstance(o, Obj):
+                o.attrs["__closed__"] = Const(True)
+            return o
+
+        for op in ("to_string", "to_dict", "to_xml", "__eq__"):
+            if ci.find_method(op) is None:
+                continue
+            n += 1
+
+            def run(it: Interp, op=op):
+                a, b = build(it), build(it)
+                if not (isinstance(a, Obj) and isinstance(b, Obj)):
+                    raise Undecided("construction did not yield abstract objects")
+                before = it.truth_of(it.run_function(Fn(eqf, a), [b], {}))
+                it.run_function(Fn(ci.find_method(op), a), [b] if op == "__eq__" else [], {})
+                it.verdict = (before, it.truth_of(it.run_function(Fn(eqf, a), [b], {})), it.truth_of(it.run_function(Fn(eqf, b), [a], {})))
+                return Const(None)
+
+            inst = f"{eqf.short}[{ci.name}]"
+            try:
+                paths = explore(p, run, {"inline": pol, "instantiate": lambda k: k.module.name.startswith("indi.message"), "max_depth": 12})
+            except Undecided as u:
+                ctx.undecided("C20.STABLE", inst, str(u), fi=eqf)
+                bad = True
+                break
+            ctx.paths_enumerated += len(paths)
+            if len(paths) != 1 or paths[0].outcome != "return":
+                ctx.undecided("C20.STABLE", inst, f"construction from valid constants + {op}() is not decided by constant evaluation ({len(paths)} paths, {paths[0].outcome if paths else None})", fi=eqf)
+                bad = True
+                break
+            before, ab, ba = paths[0].interp.verdict
+            if before is not True:
+                ctx.undecided("C20.STABLE", inst, "equality of two fresh copies not decided by constant evaluation", fi=eqf)
+                bad = True
+                break
+            if ab is not True or ba is not True:
+                ctx.violated("C20.STABLE", inst, f"two {ci.name} built from the same arguments compare equal, but after {op}() was called on one of them a == b is {ab} and b == a is {ba}: what {op}() leaves behind on the object enters the comparison", fi=eqf, text=f"history:{op}", witness=f"a = {ci.name}(...); b = {ci.name}(...); a.{op}(); a == b")
+                bad = True
+                break
+    ctx.counters["C20.STABLE:(class, operation) pairs"] = n
+    if not bad:
+        ctx.holds("C20.STABLE", "indi/message/base.py::IndiMessage.__eq__", f"{n} (class, operation) pairs: copies stay equal after one of them was serialised / rendered / compared", fi=msg_base(p).find_method("__eq__"))
+
+
 def _flip(s: str) -> str:
     """A different string of the same length (so that a rendering that keeps only the length is caught)."""
     return s[:-1] + ("#" if s[-1] != "#" else "%")
@@ -491,6 +589,7 @@ def rule_ctor(ctx):
 
 RULES = [
     ("C20.CTOR", rule_ctor, "every named constructor argument reaches the compared rendering on every successful construction path"),
+    ("C20.STABLE", rule_stable, "copies built from the same arguments stay equal after one of them was serialised, rendered or compared"),
     ("C20.EQ", rule_eq, "__eq__ abstractly evaluated on the perturbation table: copies equal, every single-point perturbation unequal"),
     ("C20.RETAIN", rule_retain, "to_dict retains every attribute under its key, the text, and all children as an ordered 1:1 sequence"),
 ]
